@@ -52,6 +52,40 @@ THEOREM AXImpliesEX ==
   PROVE  AXs(K, S, X) \subseteq EXs(K, S, X)
 BY DEF AXs, EXs
 
+(* On a total structure nothing satisfies AX {}: this is why the loop of eval_au, which returns {} for  *)
+(* an empty second argument without iterating (Rel.AU "as written"), still computes the least fixed     *)
+(* point in standard evaluation, where every steady state carries its self-loop.                        *)
+THEOREM AXEmptyOnTotal ==
+  ASSUME NEW S, NEW K \in [S -> SUBSET S], \A s \in S : K[s] # {}
+  PROVE  AXs(K, S, {}) = {}
+BY DEF AXs
+
+(* ... and so {} is a fixed point of Z |-> T \cup (A \cap AX Z) for T = {} *)
+THEOREM AUEmptyFixedPoint ==
+  ASSUME NEW S, NEW K \in [S -> SUBSET S], NEW A \in SUBSET S, \A s \in S : K[s] # {}
+  PROVE  {} \cup (A \cap AXs(K, S, {})) = {}
+BY DEF AXs
+
+(* without the self-loops (the self-loop-free variant) the dead ends satisfy AX of anything *)
+THEOREM DeadEndsSatisfyAX ==
+  ASSUME NEW S, NEW K \in [S -> SUBSET S], NEW X \in SUBSET S, NEW s \in S, K[s] = {}
+  PROVE  s \in AXs(K, S, X) /\ s \notin EXs(K, S, X)
+BY DEF AXs, EXs
+
+(* a fixed point of Z |-> A \cap EX Z lies inside A and inside EX of itself: the unfolding step of EG *)
+THEOREM EGUnfoldStep ==
+  ASSUME NEW S, NEW K \in [S -> SUBSET S], NEW A \in SUBSET S, NEW Z \in SUBSET S, Z = A \cap EXs(K, S, Z)
+  PROVE  Z \subseteq A /\ Z \subseteq EXs(K, S, A)
+BY DEF EXs
+
+(* binder and existential quantifier: the states bound to themselves are among the states for which some *)
+(* value of the variable works (the bind-projects-state mutant of the campaign is therefore an            *)
+(* over-approximation, not an arbitrary change)                                                           *)
+THEOREM BindInExists ==
+  ASSUME NEW S, NEW Phi \in [S -> SUBSET S]
+  PROVE  {s \in S : s \in Phi[s]} \subseteq UNION {Phi[v] : v \in S}
+OBVIOUS
+
 (* ---- the three README equivalences for quantifiers with a domain (C02), semantically ---- *)
 (* Phi[v] is the set of states satisfying the body when the variable has the value v; A is the  *)
 (* domain.  Jump(v) is "the body holds in the state named by the variable".                     *)
